@@ -442,7 +442,7 @@ def check_subclasses(ctx):
     per sequence (so that whatever the library remembers per type is cold
     and first filled under the first setting of the sequence), every value is
     encoded after every setting and must follow the ladder of THAT setting.
-    A refusal (TypeError) of a subclass instance is not judged."""
+    A refusal of a subclass instance (any exception) is not judged."""
     import collections
     import enum
     e = lib.pamqp().encode
@@ -483,11 +483,9 @@ def check_subclasses(ctx):
                             try:
                                 got = func(wrap(v))
                                 ctx.calls()
-                            except TypeError:
+                            except Exception:  # noqa
                                 ctx.outcome('subclass-refused')
                                 continue
-                            except Exception as exc:  # noqa
-                                got = repr(exc).encode()
                             ctx.valid()
                             want = ref(int(v))
                             if got != want:
